@@ -31,7 +31,8 @@ Z3_TIMEOUT_MS = 30000
 ACCESSORS = ['n_eff', 'log_z', 'eta', 'f_live', 'log_v_live',
              'effective_sample_size', 'evidence',
              'asymptotic_sampling_efficiency', 'discard_exploration']
-UNITS = ACCESSORS + ['write', 'write_shell_update', 'pool_map', 'static']
+UNITS = ACCESSORS + ['write', 'write_shell_update', 'pool_map', 'static',
+                     'evaluate_likelihood']
 BRANCH_COVERED_FUNCTIONS = ()
 DEAD_BRANCHES = ()
 _EX = {}
@@ -183,6 +184,18 @@ def build(cx, fe, tier, info, only=None):
         pool_map_unit(cx, fe, info, reg, ex)
     if only in (None, 'static'):
         static_obligations(cx, fe, info)
+    if only in (None, 'evaluate_likelihood'):
+        # scalar / vectorised / pooled evaluation return the same values: the
+        # functional contract of evaluate_likelihood (shared with C03) does
+        # not mention `vectorized` or `pool`, and the caller's batch is
+        # untouched
+        from . import C03
+        keep = _EX.get('ex')
+        info3 = dict(functions=[])
+        C03.build(cx, fe, tier, info3, only='evaluate_likelihood')
+        info['functions'] = info.get('functions', []) + info3['functions']
+        if keep is not None:
+            _EX['ex'] = keep
     info['assumptions'] = [
         'C11: BLAS / scikit-learn are deterministic for equal inputs on one '
         'machine; the user functions are pure',
